@@ -25,6 +25,7 @@ type SpecEnv struct {
 	loop      *loopInfo
 	fc        *fnCtx
 	depth     int
+	inTrigger bool
 }
 
 func (env *SpecEnv) with(st *State) *SpecEnv {
@@ -107,8 +108,10 @@ func (e *Engine) trSpec(env *SpecEnv, x SExpr) Val {
 			var pats []string
 			for _, tr := range n.Trigs {
 				var ts []string
+				tenv := *cur
+				tenv.inTrigger = true
 				for _, t := range tr {
-					ts = append(ts, e.trSpec(cur, t).T)
+					ts = append(ts, e.trSpec(&tenv, t).T)
 				}
 				pats = append(pats, ":pattern ("+strings.Join(ts, " ")+")")
 			}
@@ -503,6 +506,10 @@ func (e *Engine) trIndex(env *SpecEnv, n SIndex) Val {
 	case *types.Basic:
 		return Val{T: "(str.to_code (str.at " + x.T + " " + i.T + "))", S: "Int", GoT: types.Typ[types.Uint8]}
 	case *types.Map:
+		if env.inTrigger {
+			vh, vs, _, _ := e.mapHeapNames(u)
+			return Val{T: sel(sel(e.heapIn(env.st, vh, vs), x.T), i.T), S: e.sortOf(u.Elem()), GoT: u.Elem()}
+		}
 		val, dom := e.mapLoad(env.st, u, x.T, i.T)
 		return Val{T: ite(and("(not (= "+x.T+" 0))", dom), val, e.zero(u.Elem())), S: e.sortOf(u.Elem()), GoT: u.Elem()}
 	case *types.Array:
@@ -601,6 +608,9 @@ func (e *Engine) trCall(env *SpecEnv, n SCall) Val {
 			e.specFail(env, "mapHas on non-map")
 		}
 		_, dom := e.mapLoad(env.st, mt, m.T, k.T)
+		if env.inTrigger {
+			return boolVal(dom)
+		}
 		return boolVal(and("(not (= "+m.T+" 0))", dom))
 	case "errIs":
 		a, b := arg(0), arg(1)
@@ -642,6 +652,10 @@ func (e *Engine) trCall(env *SpecEnv, n SCall) Val {
 		}
 		_, ub := e.boxFns(t)
 		return Val{T: "(" + ub + " " + x.T + ")", S: e.sortOf(t), GoT: t}
+	case "arrayOf":
+		return intVal("(s_ref " + arg(0).T + ")")
+	case "deepEqual":
+		return pureSpecFuncs["reflect.DeepEqual"](e, env, []Val{arg(0), arg(1)})
 	case "splitSrc":
 		e.sc.declareFun("splitsrc", []string{"Int", "String"}, "String")
 		return Val{T: "(splitsrc (s_ref " + arg(0).T + ") " + arg(1).T + ")", S: "String", GoT: tString}
@@ -667,6 +681,9 @@ func (e *Engine) trCall(env *SpecEnv, n SCall) Val {
 	case "allocated":
 		// allocated(p): p existed in the old (pre) state
 		return boolVal("(<= " + arg(0).T + " " + e.allocCounter(env.old) + ")")
+	case "live":
+		// live(p): p has been allocated by now (it is at most the current allocation counter)
+		return boolVal("(<= " + arg(0).T + " " + e.allocCounter(env.st) + ")")
 	case "fresh":
 		return boolVal("(> " + arg(0).T + " " + e.allocCounter(env.old) + ")")
 	case "int", "int64", "int32", "uint", "uint64", "uint32", "uint8", "byte", "rune", "mathint":
